@@ -188,8 +188,12 @@ impl PeerState {
                 start,
                 origin: origin2,
             } => {
-                if origin2 != origin {
-                    warn!(actual = ?origin, expected = ?origin2, "finished sync origin does not match state")
+                if std::mem::discriminant(origin2) != std::mem::discriminant(origin) {
+                    // What finished is not the exchange that occupies the slot: our own dial failed
+                    // after we accepted the remote's crossing request (or the other way round). The
+                    // exchange that is still running keeps the slot, and its own finish reports it.
+                    warn!(actual = ?origin, expected = ?origin2, "finished sync origin does not match state");
+                    return None;
                 }
                 Some(*start)
             }
